@@ -27,7 +27,7 @@ def sign {K : Type} [LT K] [DecidableLT K] [OfNat K 0] (x : K) : Int :=
 /-- `Event::classifyTransition(before, after)` (arguments are signs) -/
 def classifyTransition (before after : Int) : Nat :=
   if before = after then 0
-  else if before = 0 then (if after = 1 then 2 else 1)
+  else if before = 0 then 0      -- do not report transitions away from zero
   else if before = 1 then 1      -- PositiveToNegative
   else 2                         -- NegativeToPositive
 
